@@ -86,10 +86,10 @@ Example exact_guard_values :
   exact_count_guard duplicate_statements = false /\ exact_count_guard "Y,Z = 1,2" = false /\ exact_count_guard ordinary = true.
 Proof. vm_compute. repeat split; reflexivity. Qed.
 
-(* fences_clean: holds on ordinary scripts (fenced block included); fails on the two shapes of the ValueError finding —
+(* fences_clean: holds on ordinary scripts (fenced block included); fails on the two shapes of an '='-less non-verbatim statement (ParserError since 1c7ed70, formerly ValueError) —
    a fence line met inside an open bracket, and a fence line with text after its backticks *)
 Definition eqless_fence2 : string := lines ["```"; "foo```"; "```x"].
 Example fences_clean_values :
   fences_clean_model ordinary = true /\ fences_clean_model eqless_fence = false /\ fences_clean_model eqless_fence2 = false /\
-  parse_model_nocheck eqless_fence2 = PErr ValueError /\ no_eqless_statement eqless_fence2 = false.
+  parse_model_nocheck eqless_fence2 = PErr ParserError /\ no_eqless_statement eqless_fence2 = false.
 Proof. vm_compute. repeat split; reflexivity. Qed.
